@@ -158,7 +158,8 @@ Proof.
   destruct (u256_idiv_u128 pf xh xl (Z.abs y)) as [[[xh' xl'] r]| | |]; cbn [bind]; try rf.
   change (cast U128 (tmax I128)) with (tmax I128).
   destruct (negb (xh' =? 0) || (xl' >? tmax I128)); [rf|].
-  destruct (x <? 0); destruct (y <? 0); cbn [bind]; tie.
+  unfold_helpers.
+  destruct (x <? 0); destruct (y <? 0); cbn [bind]; first [ solve [tie] | solve [tie2] ].
 Qed.
 
 Lemma tie_i256_div_mod_floor pf x1 x2 y :
@@ -173,7 +174,8 @@ Proof.
   destruct (u256_idiv_u128 pf xh xl (Z.abs y)) as [[[xh' xl'] r]| | |]; cbn [bind]; try rf.
   change (cast U128 (tmax I128)) with (tmax I128).
   destruct (negb (xh' =? 0) || (xl' >? tmax I128)); [rf|].
-  destruct (negb (Bool.eqb (x1 <? 0) (x2 <? 0))); cbn [bind]; tie.
+  unfold_helpers.
+  destruct (x1 <? 0); destruct (x2 <? 0); cbn [bind negb Bool.eqb]; first [ solve [tie] | solve [tie2] ].
 Qed.
 
 (* round_quot: the model takes the mode the code obtains from RoundingMode::default() when it is passed None *)
